@@ -98,7 +98,11 @@ func FindArrayIndex(str string) ([][]int, error) {
 		switch r {
 		case '\\':
 			{
-				i++
+				// a backslash escapes the next byte, except inside a backtick
+				// identifier, where it is an ordinary character
+				if hold == nil || *hold != '`' {
+					i++
+				}
 			}
 		case '"':
 			{
